@@ -16,6 +16,34 @@
 #ifndef VF_G
 #define VF_G 1000
 #endif
+#ifdef VF_S9_PROPOSED_FIX
+// NOT used by any registered kernel: the minimal source change proposed for suspect S9 (swap
+// getNCols()/getNRows()), to confirm that the checks pass on the corrected code
+// (python3-vt vf/kernel_run.py C11.a.wide quick 0 VF_S9_PROPOSED_FIX).
+#include "Basic/VectorHelper.hpp"
+void AMatrixDense::multiplyRow(const VectorDouble& vec)
+{
+  Eigen::Map<const Eigen::VectorXd> vecm(vec.data(), getNRows());
+  _eigenMatrix = vecm.asDiagonal() * _eigenMatrix;
+}
+void AMatrixDense::multiplyColumn(const VectorDouble& vec)
+{
+  Eigen::Map<const Eigen::VectorXd> vecm(vec.data(), getNCols());
+  _eigenMatrix = _eigenMatrix * vecm.asDiagonal();
+}
+void AMatrixDense::divideRow(const VectorDouble& vec)
+{
+  VectorDouble temp = VH::inverse(vec);
+  Eigen::Map<const Eigen::VectorXd> vecm(temp.data(), getNRows());
+  _eigenMatrix = vecm.asDiagonal() * _eigenMatrix;
+}
+void AMatrixDense::divideColumn(const VectorDouble& vec)
+{
+  VectorDouble temp = VH::inverse(vec);
+  Eigen::Map<const Eigen::VectorXd> vecm(temp.data(), getNCols());
+  _eigenMatrix = _eigenMatrix * vecm.asDiagonal();
+}
+#endif
 static bool same(double got, double want)
 {
 #ifdef VF_NATIVE
@@ -27,8 +55,9 @@ static bool same(double got, double want)
   return got == want;
 #endif
 }
-// op: 0 multiplyRow, 1 multiplyColumn, 2 divideRow, 3 divideColumn
-template <int NR, int NC, int OP> static void run()
+// OP: 0 multiplyRow, 1 multiplyColumn, 2 divideRow, 3 divideColumn; GEN: the generic AMatrix:: implementation
+// (qualified call on the same object) instead of the Eigen one of AMatrixDense
+template <int NR, int NC, int OP, bool GEN> static void run()
 {
   MatrixRectangular M(NR, NC);
   double m0[NR][NC];
@@ -48,10 +77,14 @@ template <int NR, int NC, int OP> static void run()
     if (OP >= 2 && v0[k] >= 0.) v0[k] += 1.; // divisors: every non-zero integer in [-G, G+1] (no assume needed)
     vec[k] = v0[k];
   }
-  if (OP == 0) M.multiplyRow(vec);
-  if (OP == 1) M.multiplyColumn(vec);
-  if (OP == 2) M.divideRow(vec);
-  if (OP == 3) M.divideColumn(vec);
+  if (OP == 0 && !GEN) M.multiplyRow(vec);
+  if (OP == 1 && !GEN) M.multiplyColumn(vec);
+  if (OP == 2 && !GEN) M.divideRow(vec);
+  if (OP == 3 && !GEN) M.divideColumn(vec);
+  if (OP == 0 && GEN) M.AMatrix::multiplyRow(vec);
+  if (OP == 1 && GEN) M.AMatrix::multiplyColumn(vec);
+  if (OP == 2 && GEN) M.AMatrix::divideRow(vec);
+  if (OP == 3 && GEN) M.AMatrix::divideColumn(vec);
   vf_assert_id(M.getNRows() == NR && M.getNCols() == NC, "shape unchanged");
   vf_assert_id((int)M._eigenMatrix.rows() == NR && (int)M._eigenMatrix.cols() == NC, "storage shape unchanged");
   if ((int)M._eigenMatrix.rows() == NR && (int)M._eigenMatrix.cols() == NC)
@@ -69,9 +102,13 @@ template <int NR, int NC, int OP> static void run()
   vf_witness();
 }
 #define X(NR, NC)                                                               \
-  extern "C" void k_mulrow_##NR##x##NC() { run<NR, NC, 0>(); }                  \
-  extern "C" void k_mulcol_##NR##x##NC() { run<NR, NC, 1>(); }                  \
-  extern "C" void k_divrow_##NR##x##NC() { run<NR, NC, 2>(); }                  \
-  extern "C" void k_divcol_##NR##x##NC() { run<NR, NC, 3>(); }
+  extern "C" void k_mulrow_##NR##x##NC() { run<NR, NC, 0, false>(); }           \
+  extern "C" void k_mulcol_##NR##x##NC() { run<NR, NC, 1, false>(); }           \
+  extern "C" void k_divrow_##NR##x##NC() { run<NR, NC, 2, false>(); }           \
+  extern "C" void k_divcol_##NR##x##NC() { run<NR, NC, 3, false>(); }           \
+  extern "C" void k_gmulrow_##NR##x##NC() { run<NR, NC, 0, true>(); }           \
+  extern "C" void k_gmulcol_##NR##x##NC() { run<NR, NC, 1, true>(); }           \
+  extern "C" void k_gdivrow_##NR##x##NC() { run<NR, NC, 2, true>(); }           \
+  extern "C" void k_gdivcol_##NR##x##NC() { run<NR, NC, 3, true>(); }
 VF_SHAPES(X)
 #undef X
